@@ -980,6 +980,12 @@ func (s *scanner) PeekN(n int) ([]byte, error) {
 	}
 
 	if s.pos+n > s.used {
+		if err == nil {
+			// refill reports a read error which came together with some
+			// data only on the next call; the window is short because
+			// of that error, not because the input ended
+			err = s.err
+		}
 		return s.buf[s.pos:s.used], err
 	}
 
